@@ -12,6 +12,9 @@ import (
 	"seehuhn.de/go/postscript/afm"
 	"seehuhn.de/go/postscript/funit"
 	"seehuhn.de/go/postscript/type1"
+
+	"verif/model/t1gen"
+	"verif/model/t1model"
 )
 
 // Input is one corpus entry.
@@ -207,6 +210,75 @@ func Fonts() []Input {
 		}
 		out = append(out, Input{Name: "sample-" + formatNames[format], Kind: "font", Data: b.Bytes()})
 	}
+	return out
+}
+
+// FontsT1gen returns fonts written by the independent producer t1gen in styles
+// the library's own writer never uses: seac composites, subroutines, flex, hint
+// replacement, lenIV 0/7, the -| |- | names, dense Adobe style, CR line ends,
+// split PFB segments.
+func FontsT1gen() []Input {
+	var out []Input
+	items := t1model.C06Fonts()
+	pick := func(g t1model.Group, n int) *t1model.Font {
+		k := 0
+		for _, it := range items {
+			if it.Group == g {
+				if k == n {
+					return it.Font
+				}
+				k++
+			}
+		}
+		panic("corpus: model font not found")
+	}
+	add := func(name string, m *t1model.Font, opt *t1gen.Options, per func(g *t1model.Glyph, l t1gen.GlyphLayout, o *t1gen.GlyphOpts)) {
+		opt.Glyph = map[string]*t1gen.GlyphOpts{}
+		for _, g := range m.Glyphs {
+			o := &t1gen.GlyphOpts{}
+			if per != nil {
+				per(g, t1gen.Layout(g), o)
+			}
+			opt.Glyph[g.Name] = o
+		}
+		data, err := t1gen.Generate(m, opt)
+		if err != nil {
+			panic("corpus: t1gen: " + err.Error())
+		}
+		out = append(out, Input{Name: "t1gen-" + name, Kind: "font", Data: data})
+	}
+	add("composite-pfbsplit-dense", pick(t1model.GroupComposite, 0), &t1gen.Options{Container: t1gen.PFBSplit, LenIV: 4, Dense: true}, nil)
+	add("multi-binary-leniv0-altnames-subrs", pick(t1model.GroupMulti, 9), &t1gen.Options{Container: t1gen.Binary, LenIV: 0, AltNames: true, EncForm: t1gen.EncExplicit},
+		func(g *t1model.Glyph, l t1gen.GlyphLayout, o *t1gen.GlyphOpts) {
+			if l.CanSubr {
+				o.Subr = t1gen.SubrNested
+			}
+			o.HintRepl = l.CanHint
+			o.DotSection = l.CanDot
+		})
+	// a glyph with flex positions: find the first outline font that has one
+	for _, it := range items {
+		if it.Group != t1model.GroupOutline {
+			continue
+		}
+		has := false
+		for _, g := range it.Font.Glyphs {
+			if len(t1gen.Layout(g).FlexAt) > 0 {
+				has = true
+			}
+		}
+		if has {
+			add("flex-pfa-cr-hexupper-div", it.Font, &t1gen.Options{Container: t1gen.PFA, LenIV: 4, Eol: t1gen.EolCR, HexUpper: true},
+				func(g *t1model.Glyph, l t1gen.GlyphLayout, o *t1gen.GlyphOpts) {
+					if len(l.FlexAt) > 0 {
+						o.Flex = map[int]bool{l.FlexAt[0]: true}
+					}
+					o.NumForm = map[int]int{0: 2}
+				})
+			break
+		}
+	}
+	add("noeexec-leniv7-crlf", pick(t1model.GroupOutline, 20), &t1gen.Options{Container: t1gen.NoEexec, LenIV: 7, Eol: t1gen.EolCRLF, EncForm: t1gen.EncNamingAbsent}, nil)
 	return out
 }
 
